@@ -58,6 +58,9 @@ TARGETS = [
     ("stun-rs/src/attributes/stun/message_integrity.rs", ["C04", "C01", "C02", "C07"]),
     ("stun-rs/src/attributes/stun/message_integrity_sha256.rs", ["C04", "C01", "C02", "C07"]),
     ("stun-rs/src/attributes/turn/*.rs", ["C01", "C02", "C03", "C14", "C19"], 2),
+    ("stun-rs/src/attributes/stun/*.rs", ["C01", "C02", "C03", "C14", "C19", "C08"], 2),
+    ("stun-rs/src/attributes.rs", ["C01", "C02", "C03", "C18", "C19"]),
+    ("stun-rs/src/attributes/unknown.rs", ["C18", "C03", "C09", "C19"]),
     ("stun-rs/src/attributes/ice/*.rs", ["C01", "C02", "C03", "C14", "C19"]),
     ("stun-rs/src/attributes/discovery/*.rs", ["C01", "C02", "C03", "C14", "C19"]),
     ("stun-rs/src/attributes/mobility/*.rs", ["C01", "C02", "C03", "C14", "C19"]),
@@ -227,7 +230,8 @@ class Worker(threading.Thread):
         text[line] = new_line
         open(full, "w").write("\n".join(text))
         t0 = time.time()
-        rc, out = sh("cargo nextest run --workspace --offline 2>&1 | tail -15", cwd=self.repo, timeout=600)
+        rc, out = sh("cargo nextest run --workspace --offline 2>&1", cwd=self.repo, timeout=600)
+        out = out[-3000:]
         res["suite_s"] = round(time.time() - t0, 1)
         if rc == 124:
             res["status"] = "killed-by-suite(timeout)"
@@ -247,10 +251,17 @@ class Worker(threading.Thread):
         detected, details = [], {}
         for p in props:
             t1 = time.time()
-            rc, out = sh("./check %s quick 2>&1 | tail -40" % p, cwd=self.verif, timeout=1500, env=dict(ENV, VERIF_SEED="1"))
+            rc, out = sh("./check %s quick 2>&1" % p, cwd=self.verif, timeout=1500, env=dict(ENV, VERIF_SEED="1"))
             sigs = re.findall(r"signature=(\S+)", out)
             details[p] = {"exit": rc, "signatures": sigs[:6], "s": round(time.time() - t1, 1)}
             res["props_run"].append(p)
+            if rc == 2 and "harness build" in out and "failed" in out:
+                # the suite builds stun-rs without the discovery / mobility features; the harness
+                # enables every feature, and there the mutant is a compile error
+                res["status"] = "does-not-compile(all-features)"
+                sh("git checkout -- .", cwd=self.repo)
+                res["checks"] = details
+                return res
             if rc == 1 and "VIOLATION" in out:
                 detected.append(p)
                 if len(detected) >= 2:
@@ -318,6 +329,7 @@ def main():
             mid = "m%d-%s-%d-%s" % (seed, re.sub(r"[^a-z0-9]+", "_", c[0].replace("/src/", "/").replace(".rs", "")), c[1] + 1, c[2].replace(">", "").replace("+", "p"))
             if mid in done:
                 continue
+            done.add(mid)
             queue.append((mid, c[0], c[1], c[2], c[3], props))
     rnd.shuffle(queue)
     print("%d mutants queued (%d already done)" % (len(queue), len(done)), flush=True)
